@@ -3,8 +3,11 @@ package verifcheck
 import (
 	"fmt"
 	"math"
+	"os"
 	"regexp"
+	"runtime"
 	"runtime/debug"
+	"runtime/pprof"
 	"sort"
 	"strconv"
 	"strings"
@@ -23,6 +26,7 @@ var c06EvolvedRe = regexp.MustCompile(`evolved_(\w+?)_\d{12,}`)
 type c06Stats struct {
 	L          map[string]int
 	NonTrivial bool
+	Abandoned  string // why the case was abandoned (engine and reference model disagree about an op: C04/C05 territory)
 }
 
 func (s *c06Stats) l(name string) { s.L[name]++ }
@@ -638,6 +642,7 @@ func c06Run(c c06Case, seed int64, st *c06Stats) (msg string) {
 			// engine and reference model disagree about the op itself: that is the subject of C04/C05, and the
 			// model can no longer serve as the oracle for this case
 			st.l("case:abandoned-model-step-disagreement")
+			st.Abandoned = fmt.Sprintf("op %d %s(idx=%s id=%s): %s", i, op.K, op.Idx, op.ID, m)
 			return ""
 		}
 		cr.track(op, r.LastErr)
@@ -700,7 +705,23 @@ func TestVerif_C06_history(t *testing.T) {
 		}
 		return
 	}
-	verifkit.RapidSetup(1500, 80000)
+	// (thorough is capped at 40000 cases = 5000 per process: every engine that was opened keeps ~0.4 MB of heap
+	// reachable after Close - allocations of hnsw.New - so the resident size of a process grows with its case count)
+	verifkit.RapidSetup(1500, 40000)
+	defer func() {
+		var ms runtime.MemStats
+		runtime.GC()
+		runtime.ReadMemStats(&ms)
+		col.Extra("goroutines_at_end", runtime.NumGoroutine())
+		col.Extra("heap_inuse_mb_at_end", int(ms.HeapInuse>>20))
+		if f := os.Getenv("C06_GOROUTINE_DUMP"); f != "" {
+			if w, err := os.Create(f); err == nil {
+				_ = pprof.Lookup("goroutine").WriteTo(w, 1)
+				w.Close()
+			}
+		}
+	}()
+	abandonedNotes := 0
 	rapid.Check(t, func(rt *rapid.T) {
 		c := c06Gen().Draw(rt, "case")
 		h := verifkit.Hash(c)
@@ -711,6 +732,13 @@ func TestVerif_C06_history(t *testing.T) {
 		col.CaseH(h, c, st.NonTrivial, c06Labels(st)...)
 		for k, n := range st.L {
 			col.Label(k, n)
+		}
+		if st.Abandoned != "" && abandonedNotes < 3 {
+			abandonedNotes++
+			if len(st.Abandoned) > 600 {
+				st.Abandoned = st.Abandoned[:600]
+			}
+			col.Note("case abandoned (not a C06 verdict), shared runner reported: " + st.Abandoned)
 		}
 		if msg != "" {
 			col.Fail(c, "%s", msg)
